@@ -88,7 +88,7 @@ func checkCmd(args []string) int {
 	case "C16":
 		c.Level = "fault_enumeration"
 		c.Rule = "one evaluation = one generated sequence of JSON values, serialised with tape-drawn variation and pushed through ReadJson under: the reference delivery, 1-3 drawn delivery schedules, EVERY truncation offset, a read error at EVERY offset, and 8-23 sampled code-point corruptions (executions_of_code_under_test counts the ReadJson calls); distinct = distinct text; non-trivial = text has >= 5 bytes and at least one truncation produced malformed JSON"
-		c.Assumptions = []string{"malformedness of faulted texts is decided by an independent strict RFC 8259 reader (model.JSONRef) that must agree with the generator on every clean input", "texts with lone surrogate escapes, numbers outside the double range, adjacent top-level values without white space, or no value at all are not judged", "top-level values are separated by white space"}
+		c.Assumptions = []string{"malformedness of faulted texts is decided by an independent strict RFC 8259 reader (model.JSONRef) that must agree with the generator on every clean input", "texts with lone surrogate escapes, a leading byte order mark, adjacent top-level values without white space, or no value at all are not judged; a numeral that denotes no double may be rejected or kept literally but must not become a text that is no numeral", "top-level values are separated by white space"}
 		c.Components = map[string][]string{"real": realLib, "simulated": {"io.Reader behind ReadJson (delivery schedule, truncation, read errors, corruption)"}}
 		c.RequiredProbes = []string{"truncation-inside-multibyte-sequence", "corruption-malformed", "corruption-still-valid", "read-error", "truncation-still-valid", "truncation-malformed", "delivery:one-byte", "zero-length-reads", "number-outside-double-range"}
 		c.Phases = []simkit.Phase{{Label: "stream-json", Bin: bin, Engine: "stream-json", Runs: pick(10000, 600000), MaxSeconds: secs(60, 1500), DetSample: int(pick(24, 256)), Samples: 3}}
@@ -101,8 +101,8 @@ func checkCmd(args []string) int {
 		c.Phases = []simkit.Phase{{Label: "stream-html", Bin: bin, Engine: "stream-html", Runs: pick(15000, 400000), MaxSeconds: secs(60, 1500), DetSample: int(pick(24, 256)), Samples: 3}}
 	case "C13":
 		c.Level = "exploration"
-		c.Rule = "one evaluation = one simulated call history over 1-3 shared documents (XML/JSON/HTML through the real readers): 3-24 operations drawn from BuildExpr, Exec with With-options or caller-owned maps, ExecAsNodeset whose result slice the caller keeps, deriving sub-slices (with spare capacity) and passing them back as variables, verbatim repeats, Unmarshal, GetCursorString, rebuilds; user callbacks fail, panic, hand out caller-held slices or re-enter Exec; every query is compared with the same query in a fresh isolated world; distinct = distinct operation list; non-trivial = >= 3 queries or >= 3 held slices"
-		c.Assumptions = []string{"no XPath reference evaluator: results are compared with the implementation itself in a fresh isolated world (same document bytes, expression string, bindings, context-node path)", "only public observations are used (Cursor API, exported Grammar methods, the caller's own maps and slices)", "the rebuild-determinism oracle (I4) replays probabilistically"}
+		c.Rule = "one evaluation = one simulated call history over 1-3 shared documents (XML/JSON/HTML through the real readers): 3-24 operations drawn from BuildExpr, Exec with With-options or caller-owned maps, ExecAsNodeset whose result slice the caller keeps, deriving sub-slices (with spare capacity) and passing them back as variables, verbatim repeats, Unmarshal, GetCursorString, rebuilds; user callbacks fail, panic, hand out caller-held slices or re-enter Exec; every query (incl. how its result prints) is compared with the same query in a fresh isolated world; bursts of 20-3000 failing queries; a battery of fixed near-neighbour queries answered against a fresh process; the last runs of every worker re-executed alone in fresh processes (history test); distinct = distinct operation list; non-trivial = >= 3 queries or >= 3 held slices"
+		c.Assumptions = []string{"no XPath reference evaluator: results are compared with the implementation itself in a fresh isolated world (same document bytes, expression string, bindings, context-node path)", "only public observations are used (Cursor API, exported Grammar methods, the caller's own maps and slices)", "the rebuild-determinism oracle (I4) replays probabilistically", "state that survives in the process is reached by three fresh-process oracles (battery, history test over the tail runs, prior-run replay); a state change that none of the sampled tail runs and battery items observes stays invisible"}
 		c.Components = map[string][]string{"real": realLib, "simulated": {"the caller (order, repetition and aliasing of public API calls)", "user callbacks (errors, panics, re-entrancy, handing out held slices)"}}
 		c.RequiredProbes = []string{"held-slice-with-spare-capacity", "held-slice-in-reverse-order", "variable-is-held-slice-with-spare-capacity", "callback-reentered-Exec", "callback-reentered-same-compiled-expression", "compiled-expression-reused", "bindings-via-caller-owned-maps", "callback-error", "callback-panic", "repeated-operation", "rebuild-determinism-check", "callback-returned-caller-held-slice", "battery-item-compared-with-fresh-process", "burst-of-failing-queries", "repeated-operation-after-burst"}
 		c.Phases = []simkit.Phase{{Label: "history", Bin: bin, Engine: "history", Runs: pick(10000, 400000), MaxSeconds: secs(70, 1500), DetSample: int(pick(16, 128)), Samples: 3, HistTail: int(pick(6, 24))}}
